@@ -33,6 +33,8 @@ func c13Jobs(tier string, seed int64) []string {
 	for i := range c13Ops {
 		jobs = append(jobs, "hist:"+strconv.Itoa(steps)+":"+strconv.Itoa(i))
 	}
+	// keys that are no identifiers (empty, blank, with quotes) through every observer that takes or shows key strings
+	jobs = append(jobs, "oddkeys:0:0")
 	return jobs
 }
 
@@ -107,6 +109,23 @@ func c13Observe(fg *value.FunctionGenerator, h *c13Handle, tag string) {
 		sym.Assert(gok == in, "api-get-defined:"+tag)
 		if gok && in {
 			sym.Assert(valEq(gv, want), "api-get-value:"+tag)
+		}
+	}
+	// isAvail with several keys: all of them must be present, whatever their order
+	multi := []string{"k0", "k1", "zz"}
+	for _, k1 := range multi {
+		for _, k2 := range multi {
+			if k1 == k2 {
+				continue
+			}
+			_, in1 := h.vals[k1]
+			_, in2 := h.vals[k2]
+			ia := eval(mustGen(fg, `m.isAvail("`+k1+`","`+k2+`")`, "m"), m)
+			if b, isB := boolOf(ia); isB {
+				sym.Assert(b == (in1 && in2), "isAvail-two-keys:"+tag)
+			} else {
+				sym.Assert(false, "isAvail-two-keys-defined:"+tag)
+			}
 		}
 	}
 	// size
@@ -224,7 +243,74 @@ func c13Observe(fg *value.FunctionGenerator, h *c13Handle, tag string) {
 	}
 }
 
+// c13OddKeys: maps holding keys that cannot be written as identifiers.
+func c13OddKeys() {
+	fg := value.New()
+	x, y := value.Int(sym.Int64("e0")), value.Int(sym.Int64("e1"))
+	odd := []string{"", " ", "a b", `q"q`, "k"}
+	builds := []string{
+		`{k:y}.put(K,x)`, `({k:y}+{}.put(K,x))`, `{k:y}.put(K,x).eval()`, `{}.put(K,x).put("k",y)`, `{k:y}.put(K,0).replace(o->{}.put(K,x))`,
+	}
+	for _, key := range odd[:4] {
+		lit := strconv.Quote(key)
+		for bi, b := range builds {
+			tag := "odd" + strconv.Itoa(bi) + ":" + lit
+			r := eval(mustGen(fg, strings.ReplaceAll(b, "K", lit), "x", "y"), x, y)
+			sym.Assert(r.ok(), "build:"+tag)
+			if !r.ok() {
+				continue
+			}
+			m, ok := r.v.(value.Map)
+			sym.Assert(ok, "is-map:"+tag)
+			if !ok {
+				continue
+			}
+			g := eval(mustGen(fg, "m.get("+lit+")+m.k*0", "m"), m)
+			sym.Assert(g.ok() && valEq(g.v, x), "get:"+tag)
+			ia := eval(mustGen(fg, "[m.isAvail("+lit+"), m.isAvail("+lit+`,"k"), m.isAvail("k",`+lit+`), m.isAvail("nope",`+lit+`), `+lit+" ~ m, m.size()]", "m"), m)
+			sym.Assert(ia.ok() && valEq(ia.v, value.NewList(value.Bool(true), value.Bool(true), value.Bool(true), value.Bool(false), value.Bool(true), value.Int(2))), "isAvail-size:"+tag)
+			// iteration and list(): each key once
+			cnt := map[string]int{}
+			m.Iter(func(k string, v value.Value) bool { cnt[k]++; return true })
+			sym.Assert(len(cnt) == 2 && cnt[key] == 1 && cnt["k"] == 1, "iteration:"+tag)
+			ls := eval(mustGen(fg, "m.list().map(e->e.key)", "m"), m)
+			if ls.ok() {
+				ks, _ := ls.v.(*value.List).ToSlice(emptyStack())
+				sym.Assert(len(ks) == 2, "list-entries:"+tag)
+			} else {
+				sym.Assert(false, "list-defined:"+tag)
+			}
+			// JSON export: exactly the two entries
+			z := eval(mustGen(fg, "m.map((k,v)->0)", "m"), m)
+			if z.ok() {
+				exp := export.JSON()
+				if err := export.Export(emptyStack(), z.v, exp); err == nil {
+					doc, okj := refJSONParse(exp.Result())
+					sym.Assert(okj && doc.kind == 'o' && len(doc.keys) == 2, "export-entry-count:"+tag)
+					if okj && doc.kind == 'o' && len(doc.keys) == 2 {
+						a, b2 := string(doc.keys[0]), string(doc.keys[1])
+						sym.Assert((a == key && b2 == "k") || (a == "k" && b2 == key), "export-keys:"+tag)
+					}
+				} else {
+					sym.Assert(false, "export-defined:"+tag)
+				}
+			}
+			// equality against an independently built map, both directions
+			other := eval(mustGen(fg, "{}.put(\"k\",y).put("+lit+",x)", "x", "y"), x, y)
+			if other.ok() {
+				e1 := eval(mustGen(fg, "[a=b, b=a]", "a", "b"), m, other.v)
+				sym.Assert(e1.ok() && valEq(e1.v, value.NewList(value.Bool(true), value.Bool(true))), "equals-independent-build:"+tag)
+			}
+		}
+	}
+	sym.Reach("end")
+}
+
 func c13Run(job string) {
+	if strings.HasPrefix(job, "oddkeys") {
+		c13OddKeys()
+		return
+	}
 	parts := strings.Split(job, ":")
 	steps, _ := strconv.Atoi(parts[1])
 	first, _ := strconv.Atoi(parts[2])
